@@ -66,6 +66,15 @@ CLAIMED = {
             'survive, once, in frequency order, attributes intact (all ~3.7k edge orderings).',
             'floats as reals; amplifier physics stubbed in the chain harness; 5 fixed channel positions there',
             'DESIGN.md §2 C07'),
+    'C10': ('symx',
+            'bounded symbolic execution of the real amplifier selection code with z3 (symbolic gain/power/allowance, real NF model per '
+            'candidate); discrete precedence situations enumerated with symbolic design-band edges; models replayed on the float code',
+            'select_edfa over sub-libraries of the shipped equipment (3-4 models incl. Raman hybrids) for all required gains, powers and '
+            'extended-gain allowances in the bound: result permitted, capable whenever some permitted model is, and no capable model has a '
+            'lower NF at that gain; get_node_restrictions follows own list > booster list > preamp list > allowed_for_design and the band '
+            'filter for symbolic band edges; Raman models only after fibres whose whole loss table is below the limit (real design run).',
+            'floats as reals; exact capability boundaries excluded; NF model itself is C04; sub-libraries listed in the evidence',
+            'DESIGN.md §2 C10'),
     'C11': ('symx',
             'bounded symbolic execution of the real routing code (incl. networkx shortest paths) over meshes with symbolic fibre lengths; '
             'z3 decides minimality against every admissible simple route; models replayed on the float code',
